@@ -408,6 +408,9 @@ pub struct GState {
     pub files: Vec<GFile>,
     pub closed_handles: Vec<u32>,
     pub clock: Timestamp,
+    /// number of entries in the implementation's directory table (includes directories opened on a
+    /// volume handle that is not open - the known finding - which `dirs` does not track)
+    pub dir_slots_used: usize,
 }
 
 pub const NAME_POOL: [&str; 14] = ["A.TXT", "B.BIN", "NEW.DAT", "LOG", "X.Y", "DIR1", "DIR2", "F0.DAT", "F1.DAT", "F2.DAT", "INNER.TXT", "SUB", "EMPTY", "ZZZZZZZZ.ZZZ"];
@@ -465,7 +468,7 @@ fn pick_len(rng: &mut Rng, cb: usize, max: usize) -> usize {
 
 impl GState {
     pub fn new(sc: &Scenario) -> GState {
-        GState { trees: sc.vols.iter().map(|v| v.tree.clone()).collect(), vols: vec![], dirs: vec![], files: vec![], closed_handles: vec![], clock: ts(46, 2, 0, 19, 56, 54) }
+        GState { trees: sc.vols.iter().map(|v| v.tree.clone()).collect(), vols: vec![], dirs: vec![], files: vec![], closed_handles: vec![], clock: ts(46, 2, 0, 19, 56, 54), dir_slots_used: 0 }
     }
 
     fn file_len(&self, f: &GFile) -> usize {
@@ -636,6 +639,9 @@ impl GState {
                 }
             }
             Op::OpenRoot(v) => {
+                if out.handle().is_some() {
+                    self.dir_slots_used += 1;
+                }
                 if let Some(h) = out.handle() {
                     if let Some(gv) = self.vols.iter().find(|x| x.handle == *v) {
                         self.dirs.push(GDir { handle: h, vol: gv.vol, vhandle: *v, path: vec![] });
@@ -646,6 +652,9 @@ impl GState {
                 }
             }
             Op::OpenDir(d, n) => {
+                if out.handle().is_some() {
+                    self.dir_slots_used += 1;
+                }
                 if let Some(h) = out.handle() {
                     if let Some(gd) = self.dirs.iter().find(|x| x.handle == *d).cloned() {
                         let mut path = gd.path.clone();
@@ -662,6 +671,7 @@ impl GState {
             }
             Op::CloseDir(d) => {
                 if ok {
+                    self.dir_slots_used = self.dir_slots_used.saturating_sub(1);
                     self.dirs.retain(|x| x.handle != *d);
                     self.closed_handles.push(*d);
                 }
